@@ -71,16 +71,14 @@ func c18Static(c *Ctx) {
 
 func buildVrace() (string, error) {
 	_ = os.MkdirAll(filepath.Dir(vraceBin), 0o755)
-	tmp := fmt.Sprintf("%s.%d", vraceBin, os.Getpid())
-	cmd := exec.Command("go", "build", "-race", "-o", tmp, "./cmd/vrace")
+	// built in place: `go build` leaves an up-to-date binary alone (no relink), so only the
+	// first check after a change of /repo or of the harness pays for the instrumented build
+	cmd := exec.Command("go", "build", "-race", "-o", vraceBin, "./cmd/vrace")
 	cmd.Dir = harnessDir
 	cmd.Env = append(os.Environ(), "GOFLAGS=-mod=mod", "GOPROXY=off")
 	out, err := cmd.CombinedOutput()
 	if err != nil {
 		return "", fmt.Errorf("go build -race ./cmd/vrace: %v\n%s", err, out)
-	}
-	if err := os.Rename(tmp, vraceBin); err != nil {
-		return "", err
 	}
 	return vraceBin, nil
 }
